@@ -25,6 +25,7 @@ Init == InitWith(Cfg, Pre)
 Next == NextWith(Steps)
 Spec == Init /\ [][Next]_vars
 Depth == 3
+DepthT == 4
 Constraint == Len(hist) <= Len(Pre) + Depth
 ASSUME PrintT(<<"CFG", ToJson(CfgJson(Cfg))>>)
 =============================================================================
